@@ -249,12 +249,14 @@ func runC08(c *Ctx) {
 
 	// ---- C08.2 history-free hash computation
 	{
-		roots := []*ssa.Function{recalc, addEl, remEl,
+		// (the small helpers are reached from the other roots anyway: one that was inlined into its
+		// caller since the rule tables were written is simply absent)
+		roots := append([]*ssa.Function{recalc, addEl, remEl,
 			p.Func(ld + ":(*hashRanges).calcElementsHash"), p.Func(ld + ":(*hashRanges).calcDividedHash"),
-			p.Func(ld + ":genTupleRanges"), p.Func(ld + ":(*hashRanges).getBottomRange"),
-			p.Func(ld + ":(*hashRanges).makeBottomRanges"), p.Func(ld + ":(*hashRanges).makeRange"),
-			p.Func(ld + ":(*hashRanges).hash"), p.Func(ld + ":(*hashRanges).getRange"), p.Func(ld + ":newHashRanges"),
-			p.Func(ld + ":(*diff).getRange"), p.Func(ld + ":(*diff).Hash"), p.Func(ld + ":(*diff).Compare")}
+			p.Func(ld + ":(*hashRanges).makeBottomRanges"), p.Func(ld + ":(*hashRanges).hash"), p.Func(ld + ":newHashRanges"),
+			p.Func(ld + ":(*diff).Hash"), p.Func(ld + ":(*diff).Compare")},
+			optFuncs(p, ld+":genTupleRanges", ld+":(*hashRanges).getBottomRange", ld+":(*hashRanges).makeRange",
+				ld+":(*hashRanges).getRange", ld+":(*diff).getRange")...)
 		clo := StaticClosure(roots, IsRepoFunc)
 		hasherWrite := func(cc *ssa.CallCommon) bool {
 			o := CalleeObj(cc)
